@@ -12,6 +12,7 @@ import os
 import shutil
 import subprocess
 import sys
+import tempfile
 import time
 
 VERIF = os.path.dirname(os.path.dirname(os.path.abspath(__file__)))
@@ -50,25 +51,49 @@ def ensure(repo: str, verbose: bool = True) -> str:
     try:
         if os.path.exists(out):
             return out
-        target = os.path.join(BUILD, "rust-target")
+        # Every build gets a PRIVATE target directory, seeded with a copy of a warm base (dependencies
+        # compiled once).  A target directory shared between source trees is unsound: cargo's fingerprint of
+        # a path package does not depend on the absolute path, so while another scratch copy still exists a
+        # build can be judged "fresh" and the previous tree's artefact would be reused.
+        base = os.path.join(BUILD, "rust-target-base")
+        target = tempfile.mkdtemp(prefix="rust-target-", dir=BUILD)
         env = dict(os.environ)
-        env.update(CARGO_TARGET_DIR=target, CARGO_NET_OFFLINE="true",
-                   PYO3_PYTHON="/venv/bin/python")
+        env.update(CARGO_NET_OFFLINE="true", PYO3_PYTHON="/venv/bin/python")
         t0 = time.time()
         if verbose:
             print(f"[build] cargo build --release --offline ({repo}/rust, key {key})",
                   file=sys.stderr, flush=True)
-        p = subprocess.run(
-            ["cargo", "build", "--release", "--offline", "--manifest-path",
-             os.path.join(repo, "rust", "Cargo.toml")],
-            env=env, stdout=subprocess.PIPE, stderr=subprocess.STDOUT, text=True)
-        if p.returncode != 0:
-            sys.stderr.write(p.stdout[-4000:])
-            raise RuntimeError("cargo build failed")
-        built = os.path.join(target, "release", "lib_pendulum.so")
-        tmp = out + f".tmp{os.getpid()}"
-        shutil.copyfile(built, tmp)
-        os.replace(tmp, out)
+        try:
+            if os.path.isdir(os.path.join(base, "release", "deps")):
+                shutil.rmtree(target)
+                shutil.copytree(base, target, symlinks=True)
+                # drop the crate's own artefacts and fingerprints: only the dependencies are reused
+                for sub in ("deps", ".fingerprint", "incremental", "."):
+                    d = os.path.join(target, "release", sub)
+                    if os.path.isdir(d):
+                        for n in os.listdir(d):
+                            if "_pendulum" in n:
+                                pth = os.path.join(d, n)
+                                shutil.rmtree(pth) if os.path.isdir(pth) else os.unlink(pth)
+            env["CARGO_TARGET_DIR"] = target
+            p = subprocess.run(
+                ["cargo", "build", "--release", "--offline", "--manifest-path",
+                 os.path.join(repo, "rust", "Cargo.toml")],
+                env=env, stdout=subprocess.PIPE, stderr=subprocess.STDOUT, text=True)
+            if p.returncode != 0:
+                sys.stderr.write(p.stdout[-4000:])
+                raise RuntimeError("cargo build failed")
+            if " Compiling _pendulum" not in p.stdout:
+                raise RuntimeError("cargo did not recompile the crate: refusing a possibly stale artefact")
+            built = os.path.join(target, "release", "lib_pendulum.so")
+            tmp = out + f".tmp{os.getpid()}"
+            shutil.copyfile(built, tmp)
+            os.replace(tmp, out)
+            if not os.path.isdir(os.path.join(base, "release", "deps")):
+                shutil.rmtree(base, ignore_errors=True)
+                os.replace(target, base)     # first build: keep it as the warm base
+        finally:
+            shutil.rmtree(target, ignore_errors=True)
         if verbose:
             print(f"[build] done in {time.time() - t0:.1f}s -> {out}", file=sys.stderr,
                   flush=True)
